@@ -92,3 +92,24 @@ Example failed_iff_marker_nontrivial :
   r_failed (record_response (new_response [120] (FList [[69;82;82]; [37;32;73]])) [111;107;32;37;32;73;110]) = true /\
   r_failed (record_response (new_response [120] (FList [[69;82;82]; [37;32;73]])) [111;107]) = false.
 Proof. split; vm_compute; reflexivity. Qed.
+
+(* markers are literal text, never patterns: a marker made of regular-expression metacharacters is found
+   exactly where it occurs literally.  "a.c" is in "xa.cx" but not in "abc"; "(" is in "f(x)" and not in "fx";
+   "E|R" is in "xE|Ry" and not in "E"; "a*" is in "a*b" and not in "aaa"; the full IOS complaint
+   "% Invalid input detected at '^' marker." is found in the output that carries it. *)
+Definition ios_invalid : bytes :=
+  [37;32;73;110;118;97;108;105;100;32;105;110;112;117;116;32;100;101;116;101;99;116;101;100;32;97;116;32;39;94;39;32;109;97;114;107;101;114;46].
+Definition flag_of (f : fwc) (result : bytes) : bool := r_failed (record_response (new_response [120] f) result).
+Example failed_iff_marker_metachar :
+  flag_of (FStr [97;46;99]) [120;97;46;99;120] = true /\ flag_of (FStr [97;46;99]) [97;98;99] = false /\
+  flag_of (FStr [40]) [102;40;120;41] = true /\ flag_of (FStr [40]) [102;120] = false /\
+  flag_of (FList [[69;124;82]]) [120;69;124;82;121] = true /\ flag_of (FList [[69;124;82]]) [69] = false /\
+  flag_of (FList [[97;42]; [40]]) [97;42;98] = true /\ flag_of (FList [[97;42]; [40]]) [97;97;97] = false /\
+  flag_of (FStr ios_invalid) ([32;32;94;10] ++ ios_invalid ++ [10;120]) = true /\
+  flag_of (FStr ios_invalid) [37;32;73;110;118;97;108;105;100;32;105;110;112;117;116] = false.
+Proof. vm_compute. repeat split; reflexivity. Qed.
+
+(* the flag is a function of literal containment alone (the form the correspondence run evaluates) *)
+Lemma flag_of_literal : forall f result, flag_of f result = contains_any (markers_of f) result.
+Proof. intros. apply record_failed. Qed.
+
